@@ -150,6 +150,15 @@ def jd_month_tables(ctx, ym):
             via_time = py(t2.m(t2.m(I2.call('SolarTime::from_ymd_hms', [y, m, 1, 0, 0, 0]), 'get_julian_day'), 'get_day'))
             if via_day != out[0] or via_time != out[0]:
                 return 'SolarDay::get_julian_day %s / SolarTime::get_julian_day %s / JulianDay::from_ymd_hms %s disagree' % (via_day, via_time, out[0])
+            # ... and the last day of the month is accepted, the day after it refused (an instant on a nonexistent day would alias the next month)
+            last = CAL.month_last_dom(y, m)
+            def _accepted(q, args):
+                try:
+                    return bool(I2.call(q, args).ok)
+                except Bottom:
+                    return False          # refusing by panic is still refusing
+            if not _accepted('SolarDay::new', [y, m, last]) or _accepted('SolarDay::new', [y, m, last + 1]) or _accepted('SolarTime::new', [y, m, last + 1, 0, 0, 0]):
+                return 'day %d / %d of %d-%d: the calendar has exactly %d days in that month, the constructors disagree' % (last, last + 1, y, m, last)
         if (y, m) == (1582, 10):
             out.append(py(t2.m(I2.call('JulianDay::from_ymd_hms', [y, m, 15, 0, 0, 0]), 'get_day')))
         return out
